@@ -131,7 +131,8 @@ def requirements(tier):
     req = {f"op:{o}": (100 if q else 2000) for o in OPS}
     req.update({
         "bystander-checks": 25000 if q else 500000,
-        "copy-identity-checks": 3000 if q else 60000,
+        "copy-identity-checks": 3000 if q else 60000, "copy-noop-conversion:form": 100 if q else 2000, "copy-noop-conversion:frame": 100 if q else 2000,
+        "pickle-user-frame:after-name-reuse": 300 if q else 6000,
         "poke-checks": 1000,
         "pickle-compared": 200,
         "convert-compared": 300,
@@ -456,6 +457,7 @@ def identity_checks(pool, src, new, op):
     ctx.count("copy-identity-checks")
     R, N = src.obj, new
     w = lambda **kw: pool.wit(source=src.label, op=op, **kw)  # noqa: E731
+    ctx.expect(N is not R, "C15/copy-returns-the-receiver", w(), f"{op} returned the receiver itself")
     ctx.expect(not np.shares_memory(np.asarray(R), np.asarray(N)), "C15/copy-shares-coordinates", w(), f"{op}: coordinates share memory")
     cr_, cn = containers(R), containers(N)
     for k in cr_:
@@ -567,6 +569,9 @@ def run_histories(ctx, job, idx, rng, st):
             ctx.count("with-maneuvers")
         ctx.count("form0:" + d["form"])
 
+    if idx % 4 == 0:
+        pickle_user_frame(ctx, idx, rng, descrs[0])
+
     for step in range(nops):
         ti = rng.randrange(len(pool.entries))
         te = pool.entries[ti]
@@ -596,11 +601,19 @@ def run_histories(ctx, job, idx, rng, st):
             if op == "copy()":
                 new_obj = T.copy()
             elif op == "copy(form)":
-                rec["form"] = f = rng.choice([x for x in FORMS if x != T.form.name])
+                # one time in four the "conversion" asked for is the current form (orbit.copy(form="cartesian") on a
+                # cartesian state is what the library itself does everywhere): still a copy
+                noop = rng.random() < 0.25
+                rec["form"] = f = T.form.name if noop else rng.choice([x for x in FORMS if x != T.form.name])
+                if noop:
+                    ctx.count("copy-noop-conversion:form")
                 new_obj = T.copy(form=f if rng.random() < 0.5 else get_form_obj(f))
             elif op == "copy(frame)":
-                rec["frame"] = F = pick_frame(rng, te, exclude=fname(T.frame))
-                new_obj = T.copy(frame=F if rng.random() < 0.5 else get_frame(F))
+                noop = rng.random() < 0.25
+                rec["frame"] = F = fname(T.frame) if noop else pick_frame(rng, te, exclude=fname(T.frame))
+                if noop:
+                    ctx.count("copy-noop-conversion:frame")
+                new_obj = T.copy(frame=F if rng.random() < 0.5 else (T.frame if noop else get_frame(F)))
             elif op == "copy(same)":
                 cands = [e for e in pool.entries if (te.allow_rot or fname(e.obj.frame) not in ROTATING)]
                 oe = rng.choice(cands)
@@ -747,6 +760,59 @@ def run_histories(ctx, job, idx, rng, st):
                 pool.add(new_obj, label, group=te.group, allow_rot=te.allow_rot)
         if len(pool.entries) > 8:
             break
+
+
+def pickle_user_frame(ctx, idx, rng, descr):
+    """History: the state lives in a frame defined by the user; a DIFFERENT frame is later registered under the same name
+    (the library allows it and says so: "already registered. Overriding").  The live object keeps its frame; so must the
+    object that comes out of a pickle round trip (the frame is metadata: it decides which point of space the six numbers
+    are)."""
+    from beyond.frames.frames import Frame
+    from beyond.frames import orient, center
+    import logging
+
+    orients = ["EME2000", "MOD", "TOD", "TEME", "G50"]
+    o1, o2 = rng.sample(orients, 2)
+    name = f"VmonC15User{idx}"
+    lg = logging.getLogger("beyond.frames.frames")
+    old_level = lg.level
+    lg.setLevel(logging.ERROR)
+    try:
+        user = Frame(name, getattr(orient, o1), center.Earth)
+        d = dict(descr, frame="EME2000", cov_frame=None if descr["cov_frame"] is None else "EME2000")
+        obj = build(d)
+        if obj._data.get("cov") is not None:
+            del obj.cov
+        obj._data["frame"] = user  # the numbers are now coordinates in the user's frame (orientation o1)
+        w = {"state": d, "user_frame": name, "orientation_first": o1, "orientation_second": o2}
+
+        def physical(x):
+            return probe.arr(x.copy(frame="EME2000", form="cartesian"))
+
+        ref = physical(obj)
+        for stage in ("before-name-reuse", "after-name-reuse"):
+            if stage == "after-name-reuse":
+                Frame(name, getattr(orient, o2), center.Earth)
+                if obj.frame is not user:
+                    ctx.violation("C15/live-object-frame-replaced-by-registration", w, "registering a frame under a used name changed a live object's frame")
+                    return
+            ctx.count("pickle-user-frame:" + stage)
+            try:
+                back = pickle.loads(pickle.dumps(obj))
+                got = physical(back)
+            except Exception as exc:
+                ctx.violation("C15/pickle-user-frame-raises", dict(w, stage=stage, exc=repr(exc)), f"pickle round trip in a user frame raised {exc!r}")
+                return
+            ok_meta = back.frame.name == name and back.frame.orientation.name == o1 and back.frame.center.name == "Earth"
+            ctx.expect(ok_meta, "C15/pickle-changes-the-frame-of-the-state",
+                       dict(w, stage=stage, got_orientation=back.frame.orientation.name, got_center=back.frame.center.name),
+                       f"{stage}: unpickled state is in a frame oriented as {back.frame.orientation.name}, the original as {o1}")
+            dr = float(np.linalg.norm(got[:3] - ref[:3]))
+            ctx.resid("pickle-user-frame:position-in-EME2000", dr, 1e-6 + 1e-12 * float(np.linalg.norm(ref[:3])), key="C15/pickle-changes-the-frame-of-the-state",
+                      witness=dict(w, stage=stage, original_in_EME2000=ref.tolist(), unpickled_in_EME2000=got.tolist()),
+                      msg=f"{stage}: once expressed in EME2000 the unpickled state is {dr:.6g} m from the original")
+    finally:
+        lg.setLevel(old_level)
 
 
 def get_form_obj(name):
